@@ -101,7 +101,26 @@ def namings(tier: str) -> list[dict]:
                   want // 10):
         for t in ("T02", "T03"):
             twice.append({**n, "template": t, "id": n["id"] + t, "family": "same_array_twice"})
-    return sel + twice, gen_states, len(out)
+    # a stored intermediate tagged PrefixNamed(p) with p the name of an OUTPUT (stored
+    # later), of an input, or the stem of an iname: the temporary gets a name DERIVED from
+    # p that clashes with nothing, and the naming is accepted (output names are reserved
+    # before any temporary is named)
+    pref = []
+    for n in pick([n for n in acc if n["template"] == "T00" and n["named"] == "-"
+                   and n["expect"] == "accept"], want // 20):
+        for which, pname in (("o0", n["outs"][0]), ("o1", n["outs"][1]), ("i0", n["ins"][0]),
+                             ("dim", n["outs"][1] + "_dim0")):
+            pref.append({**n, "template": "T00P", "prefix_temp": pname,
+                         "id": f"{n['id']}P{which}", "family": "prefix_on_temporary"})
+    # an INPUT that carries ImplStored (a no-op on an input), is itself an output and is
+    # read by another output: still ONE argument of that name
+    stin = []
+    for n in pick([n for n in acc if n["template"] == "T01" and n["expect"] == "accept"],
+                  want // 20):
+        for t in ("T01", "T03"):
+            stin.append({**n, "template": t, "stored_input": True, "id": f"{n['id']}S{t}",
+                         "family": "stored_input_output"})
+    return sel + twice + pref + stin, gen_states, len(out)
 
 
 def build_template(n: dict) -> tuple[Any, dict, dict]:
@@ -150,6 +169,8 @@ def build_template(n: dict) -> tuple[Any, dict, dict]:
             return {n["outs"][0]: av * 2 + d1 + (d2 * 3 if n["ndw"] == 2 else 0)}
         return {n["outs"][0]: expr}, wrapped, {"ref": ref1}
     a = pt.make_placeholder(n["ins"][0], (3,), np.float64)
+    if n.get("stored_input"):
+        a = a.tagged(ImplStored())
     # (float32: two placeholders of one name must be DISTINCT inputs, not equal nodes)
     b = pt.make_placeholder(n["ins"][1], (3,), np.float32)
     d1 = np.array([1.0, 2.0, 3.0])
@@ -159,6 +180,8 @@ def build_template(n: dict) -> tuple[Any, dict, dict]:
     tags: tuple = (ImplStored(),)
     if n["named"] != "-":
         tags = (ImplStored(), Named(n["named"]))
+    if n.get("prefix_temp"):
+        tags = (ImplStored(), PrefixNamed(n["prefix_temp"]))
     m = (a * b + D).tagged(tags)
     o1 = pt.sum(m) + pt.sum(E)
     o2 = a if n["template"] in ("T01", "T03") else m * 2 + E
@@ -187,7 +210,8 @@ def observe(n: dict) -> dict:
     rec: dict[str, Any] = {"id": n["id"], "expect": n["expect"], "family": n["family"],
                            "naming": {k: n[k] for k in ("ins", "outs", "named", "template",
                                                         "kind", "dw", "ndw", "sp", "kinds",
-                                                        "dws", "same") if k in n}}
+                                                        "dws", "same", "prefix_temp")
+                                      if k in n}}
     try:
         outs, wrapped, aux = build_template(n)
     except Exception as ex:      # noqa: BLE001
@@ -208,7 +232,8 @@ def observe(n: dict) -> dict:
         {n["named"]} - {"-"}) | (
         {n["dw"]} if n.get("kind") == "named" else set()) | (
         {d for k, d in zip(n["kinds"], n["dws"]) if k == "named"} if "kinds" in n else set())
-    prefixes = [n["dw"]] if n.get("kind") == "prefix" else \
+    prefixes = [n["prefix_temp"]] if n.get("prefix_temp") else \
+        [n["dw"]] if n.get("kind") == "prefix" else \
         [d for k, d in zip(n.get("kinds", ()), n.get("dws", ())) if k == "prefix"]
     rng = np.random.default_rng(abs(hash(n["id"])) % (2 ** 31))
     av, bv = rng.standard_normal(3), rng.standard_normal(3).astype(np.float32)
